@@ -22,6 +22,27 @@ CHECKS = {
  "C19": ("TLA+ UCI oracle replay (B1) + TLC validation of recorded text/parse round trips (B2)",
          "to_uci of every legal move equals UCI(m) of the specification, strings are distinct per position, and the Stockfish-bridge parser (hook H3) reconstructs the rendered move (variant, fields, effect on the board).",
          "5 C19", "Notation.tla UCI; hook H3 exposes the private parser unchanged"),
+ "C04": ("TLA+ mechanism model Engine.tla: TLC exhaustive (MC_Engine UndoRestores) + trace validation of recorded apply/undo histories (Trace_Engine)",
+         "the engine's stacks and incremental key are modelled action by action; TLC proves UndoRestores on every state of the bounded model, and every Undo / Query event of long seeded histories recorded from the real board (undo bursts to any depth, queries, registrations) must reproduce the model's full projection: placement, turn, rights, ep, clocks, key, repetition count.",
+         "5 C04", "Engine.tla mirrors src/board and src/chess_move; harness logs the public getters after every call"),
+ "C05": ("TLA+ key algebra: TLC exhaustive (MC_Engine KeyInvariant + negative control) + TLC recomputation of the 64-bit key at every recorded event + constant tables (Trace_Tables)",
+         "the key is modelled as a set of features toggled incrementally; KeyInvariant holds on the bounded model and fails for the stale-ep design; for every event of every recorded history TLC recomputes the key of the logged position from black-box-read constants on 16-bit limbs; the constants themselves are checked non-zero and pairwise distinct.",
+         "5 C05", "constants are read black-box per run; thorough re-draws the build-time tables 3 more times"),
+ "C12": ("TLA+ BoardInv: TLC on MC_Engine + every recorded event and sampled transient boards validated against the invariant and the summaries",
+         "representation invariants (summaries = squares, one king a side, no pawn on rank 1/8, right => home squares, ep shape) evaluated by TLC on every model state, every logged state of random histories and boards observed between a move and its undo inside generation/search (hook H5).",
+         "5 C12", "hook H5 observes transient boards; sampled 1-in-k"),
+ "C14": ("TLA+ Game layer (CoordMatch/LabelMatch/GamePlay) : trace validation of typed-input games",
+         "for positions along Game-API games: all 4096 coordinate pairs, near-miss notation strings and legal inputs; TLC decides accepted <=> names a legal move, accepted input plays exactly that move and is recorded, refused input changes nothing.",
+         "5 C14", "history observable only via most_recent_move; CLI level in the thorough tier"),
+ "C15": ("TLA+ book/engine-move events: every compiled book edge legal on layer R; engine move always a legal move (trace validation)",
+         "the compiled opening-book trie is enumerated and replayed on the rules specification from the standard start; at every node, off the book and on supplied boards the engine's answer must be Ok(legal move).",
+         "5 C15", "book enumerated through Book::get_next_moves of the current build (build script re-run when opening_lines.txt changes)"),
+ "C16": ("TLA+ clock model: TLC on MC_Engine (ClockInvariant) + trace validation of long games incl. draw-by-move-count verdicts",
+         "half-move clock = plies since last capture/pawn move and move counter = 1 + moves made, on the bounded model and after every apply/undo of 330-700-ply recorded games crossing 49/50/99/100 and 254/255/256 with overflow checks on; game_ending must say Draw iff the clock has reached 100.",
+         "5 C16", "precedence of draw vs mate on the same ply not judged"),
+ "C17": ("TLA+ repetition bag model: TLC on MC_Engine (RegInvariant) + trace validation of shuffling histories and Game-API games",
+         "reported occurrence counts compared with the model's bag of full positions (placement, side, rights, ep) along recorded histories with recurrences, triangulation, rights loss, ep opportunities and interleaved undo; Game-API shuffle games must be drawn at the third occurrence.",
+         "5 C17", "Game-level part is a known finding (D8b) on this tree"),
 }
 
 
